@@ -561,6 +561,21 @@ def run_thread_case(case, workdir):
                 pending[t] = (op, arg)
                 effective.append([t, op, arg, 'blocked', txn_lock.locked()])
             settle()
+        # drain: steps of blocked threads were skipped, so close whatever is still open (a correct implementation always gets there)
+        for _round in range(4 * case['threads'] + 4):
+            if failed[0]: break
+            todo = [t for t in sorted(workers) if t not in pending and workers[t].cm is not None]
+            if not todo and not pending: break
+            if not todo: break
+            for t in todo:
+                workers[t].q.put((len(effective), 'exit_if_open', 0))
+                kind, val = wait_for(t)
+                if kind == 'done':
+                    effective.append([t, 'exit_if_open', 0, val, txn_lock.locked()])
+                elif kind == 'blocked':
+                    pending[t] = ('exit_if_open', 0)
+                    effective.append([t, 'exit_if_open', 0, 'blocked', txn_lock.locked()])
+                settle()
     finally:
         CTL.armed = False
     out = {'effective': effective, 'still_blocked': sorted(pending), 'failed': failed[0],
@@ -652,6 +667,83 @@ def sql_text_cases(payload):
     return out
 
 
+# ---------------------------------------------------------------------------------------------- mode: pg (C17, PostgreSQL autocommit switching)
+
+class FakePgCursor(object):
+    description = [('id',)]
+    rowcount = 1
+    lastrowid = 1
+    def __init__(self, con): self.con = con
+    def execute(self, sql, args=None):
+        u = ' '.join(sql.split()).upper()
+        kind = ('set_serializable' if u.startswith('SET TRANSACTION ISOLATION LEVEL SERIALIZABLE') else 'discard' if u.startswith('DISCARD ALL')
+                else 'select' if u.startswith('SELECT') else 'write' if u.startswith(('INSERT', 'UPDATE', 'DELETE')) else 'other:' + u[:30])
+        self.con.log('execute:' + kind)
+        if not self.con._ac: self.con.dtx = True
+    def fetchone(self): return None
+    def fetchmany(self, n=None): return []
+    def fetchall(self): return []
+
+
+class FakePgConnection(object):
+    """stands in for a psycopg2 connection: records every call together with `autocommit` and whether a transaction is open"""
+    def __init__(self, events, ac0):
+        self.__dict__['events'] = events
+        self.__dict__['_ac'] = ac0
+        self.__dict__['dtx'] = False
+        self.__dict__['bad'] = False
+        self.__dict__['server_version'] = 90600
+    def log(self, what): self.events.append([what, self._ac, self.dtx])
+    @property
+    def autocommit(self): return self._ac
+    @autocommit.setter
+    def autocommit(self, v):
+        self.log('autocommit:%s' % bool(v))
+        if self.dtx: self.__dict__['bad'] = True
+        self.__dict__['_ac'] = bool(v)
+    def __setattr__(self, k, v):
+        if k == 'autocommit': type(self).autocommit.fset(self, v)
+        else: self.__dict__[k] = v
+    def set_client_encoding(self, enc): pass
+    def cursor(self): return FakePgCursor(self)
+    def commit(self):
+        self.log('commit'); self.dtx = False
+    def rollback(self):
+        self.log('rollback'); self.dtx = False
+    def close(self): self.log('close')
+
+
+def pg_cases(payload):
+    """Real PGProvider.set_transaction_mode / PGPool.release / SessionCache code on a recording stub connection."""
+    sys.path.insert(0, os.path.dirname(os.path.abspath(__file__)))
+    import vlib, types
+    from pony import orm
+    vlib.stub_modules()
+    from pony.orm.dbproviders.postgres import PGPool
+    outs = []
+    for case in payload['cases']:
+        events = []
+        fake = types.SimpleNamespace(connect=lambda *a, **k: FakePgConnection(events, case.get('ac0', False)))
+        db = orm.Database('postgres', pony_pool_mockup=PGPool(fake))     # the real Database / PGProvider / PGPool on the stub driver
+        del events[:]                                                     # calls made by bind(): connect, inspect, release
+        excs = []
+        for shape, ops, fail in case['sessions']:
+            try:
+                with orm.db_session(**session_kwargs(shape)):
+                    for op in ops:
+                        if op == 'select': db.select('select id from t', {}, {})
+                        elif op == 'write': db.execute('insert into t (v) values (1)', {}, {})
+                        elif op == 'commit': orm.commit()
+                        elif op == 'rollback': orm.rollback()
+                    if fail: raise BodyError('body')
+                excs.append('none')
+            except BaseException as e:
+                excs.append(exc_enum(e))
+        con = db.provider.pool.con
+        outs.append({'events': events, 'excs': excs, 'bad': bool(con.bad) if con is not None else False})
+    return outs
+
+
 def main():
     payload = json.load(sys.stdin)
     kill = threading.Timer(float(payload.get('total_timeout', 1200)), lambda: os._exit(3)); kill.daemon = True; kill.start()
@@ -663,6 +755,8 @@ def main():
         res = {'rows': read_rows(payload['path'])}
     elif mode == 'sql_text':
         res = sql_text_cases(payload)
+    elif mode == 'pg':
+        res = pg_cases(payload)
     else:
         install_proxy()
         workdir = tempfile.mkdtemp(prefix='c19-', dir=payload.get('tmp') or None)
